@@ -639,6 +639,44 @@ func runC03(ctx *Ctx) error {
 				}
 			}
 		}
+		// a vertex with several edges in each direction, deleted and created again: every adjacency entry of the old one must be
+		// gone (DelVertex collects the keys to delete while it scans)
+		{
+			h := []gOp{{Op: "addgraph", G: 1}}
+			for v := 1; v <= 3; v++ {
+				h = append(h, gOp{Op: "addv", G: 1, El: &gElem{Kind: "v", ID: v, L: 1}})
+			}
+			h = append(h, gOp{Op: "adde", G: 1, El: &gElem{Kind: "e", ID: 1, L: 1, S: 1, T: 2}}, gOp{Op: "adde", G: 1, El: &gElem{Kind: "e", ID: 2, L: 1, S: 1, T: 3}},
+				gOp{Op: "adde", G: 1, El: &gElem{Kind: "e", ID: 3, L: 2, S: 1, T: 2, D: 1}}, gOp{Op: "adde", G: 1, El: &gElem{Kind: "e", ID: 0, L: 2, S: 2, T: 1}},
+				gOp{Op: "bulk", G: 1, Els: []gElem{{Kind: "e", ID: 4, L: 1, S: 3, T: 1}, {Kind: "e", ID: 5, L: 1, S: 2, T: 1, D: 2}}},
+				gOp{Op: "delv", G: 1, ID: 1}, gOp{Op: "addv", G: 1, El: &gElem{Kind: "v", ID: 1, L: 2}}, gOp{Op: "dele", G: 1, ID: 2})
+			corpus = append(corpus, h)
+		}
+		// a graph with vertices, edges in both directions and a self loop, deleted and created again under the same name,
+		// with a sibling graph of the same content next to it: nothing of the deleted graph may show in the new one
+		// (every index -- by source, by destination, labels -- is observed after re-adding the old ids one by one)
+		for _, sib := range []bool{false, true} {
+			h := []gOp{{Op: "addgraph", G: 1}}
+			if sib {
+				h = append(h, gOp{Op: "addgraph", G: 2})
+			}
+			fill := func(g int) []gOp {
+				return []gOp{{Op: "addv", G: g, El: &gElem{Kind: "v", ID: 1, L: 1}}, {Op: "addv", G: g, El: &gElem{Kind: "v", ID: 2, L: 2, D: 1}},
+					{Op: "adde", G: g, El: &gElem{Kind: "e", ID: 1, L: 1, S: 1, T: 2}}, {Op: "adde", G: g, El: &gElem{Kind: "e", ID: 2, L: 2, S: 2, T: 1, D: 2}},
+					{Op: "adde", G: g, El: &gElem{Kind: "e", ID: 3, L: 1, S: 2, T: 2}}}
+			}
+			h = append(h, fill(1)...)
+			if sib {
+				h = append(h, fill(2)...)
+			}
+			h = append(h, gOp{Op: "delgraph", G: 1}, gOp{Op: "addgraph", G: 1},
+				gOp{Op: "addv", G: 1, El: &gElem{Kind: "v", ID: 2, L: 1}}, gOp{Op: "addv", G: 1, El: &gElem{Kind: "v", ID: 1, L: 2}},
+				gOp{Op: "adde", G: 1, El: &gElem{Kind: "e", ID: 3, L: 2, S: 1, T: 1}})
+			if sib {
+				h = append(h, gOp{Op: "delgraph", G: 2}, gOp{Op: "addgraph", G: 2}, gOp{Op: "addv", G: 2, El: &gElem{Kind: "v", ID: 1, L: 1}})
+			}
+			corpus = append(corpus, h)
+		}
 		for _, h := range corpus {
 			for _, d := range drivers {
 				inputs = append(inputs, c03Input{Driver: d, Hist: h})
